@@ -369,3 +369,42 @@ def distribution(lines):
         key = "op%d ty%s %dx%d" % (t[1], t[2] if t[1] != 4 else "k", t[4], t[5])
         hist[key] = hist.get(key, 0) + 1
     return dict(sorted(hist.items()))
+
+
+# ---- third extension wave (builder GEN, notes/GEN.md): heaps_permutations (src/linear_algebra.rs) is
+# re-translated from <REPO>'s Rust source on every run (tools/gen_arith.py -> Gen/Arith.v) and
+# Proofs/GenHeapP.v re-proves "generated = hand-written model" (C07_generated_heap_step_matches_model).
+from tools import vlib as _vlib, gen_arith as _gen_arith
+
+TRUSTED = list(globals().get("TRUSTED", [])) + [
+    "tools/gen_arith.py (mini-Rust -> Gallina translator, notes/GEN.md): heaps_permutations is re-translated on every run into the event trace of one invocation (consumer call / recursive call / swap) and proved to compute one level of Model/Perms.v heaps (C07_generated_heap_step_matches_model); GenHeapP.run_event is the reading of the three events (Vec::swap = Perms.swap, the consumer = with_each_permutation's toggle closure)"]
+_GEN_FAILURE = None
+
+
+def pre_proof(cov):
+    """Regenerates coq/theories/Gen/Arith.v from <REPO>'s Rust source (under the build lock) and builds the
+    equivalence proofs; for a scratch tree (VERIF_REPO) a private copy is generated and proved instead."""
+    global _GEN_FAILURE
+    st, _GEN_FAILURE = _gen_arith.regenerate_and_prove(["theories/Proofs/GenHeapP.vo"])
+    cov["translator"] = {k: st[k] for k in ("repo", "targets", "definitions", "not_translated", "changed") if k in st}
+    cov["translator"]["equivalence_proofs"] = "fail" if _GEN_FAILURE else "ok"
+
+
+_prev_extra = globals().get("extra")
+
+
+def extra(tier, seed, cov):
+    """the verdict of the generated-equals-model proofs (taken under the build lock in pre_proof), then the
+    translator's own table tests, then whatever extra() this module had before"""
+    out = []
+    if _GEN_FAILURE:
+        out.append(("generated-equivalence", {"property": "C07", "kind": "proof layer: a definition regenerated from the Rust source "
+                                              "no longer equals the hand-written model function", "repo": _vlib.REPO, **_GEN_FAILURE}))
+    else:
+        from tools import test_gen_arith
+        res = test_gen_arith.extra_violations("C07", tier)
+        cov.setdefault("translator", {})["self_test"] = "fail" if res else "table ok"
+        out += res
+    if _prev_extra is not None:
+        out += list(_prev_extra(tier, seed, cov))
+    return out
